@@ -7,6 +7,7 @@ import Mathlib.Algebra.Ring.Basic
 import Qvnt.Lemmas.Queue
 import Qvnt.Lemmas.GenInt.bind_ok_self
 import Qvnt.Lemmas.GenInt.MacrosDisjoint
+import Qvnt.Lemmas.GenInt.MacrosInv
 import Qvnt.Lemmas.GenInt.bind_ok_eta
 import Qvnt.Lemmas.GenInt.foldlM_process
 
@@ -17,7 +18,7 @@ variable {R : Type}
 section proc
 variable [Add R] [Sub R] [Mul R] [Neg R] [Div R] [ExprFns R] [AngleFns R]
 
-theorem int_process_nodes_eq [Zero R] [One R] [Consts R] (s c : Interp R) (hd : MacrosDisjoint s c) (nodes : List (Node R)) :
+theorem int_process_nodes_eq [Zero R] [One R] [Consts R] (s c : Interp R) (hd : MacrosInv s c) (nodes : List (Node R)) :
     int_process_nodes s c nodes = (Interp.processNodes s c nodes).toE := by
   unfold int_process_nodes
   simp only [bind_ok_self, bind_ok_eta]
